@@ -141,7 +141,7 @@ func (p *Prog) LoadExt(modDir string, rels ...string) (*Ext, error) {
 			Dir:        p.Repo,
 			Env:        env,
 			Fset:       p.Fset,
-			BuildFlags: []string{"-mod=readonly"},
+			BuildFlags: []string{"-mod=readonly", "-trimpath"},
 		}
 		deps, err := packages.Load(cfg, pats...)
 		if err != nil {
